@@ -265,8 +265,8 @@ def run(ctx):
     vn = P.fn(ANON + 'validate_nesting')
     cmpc = [i for i in vn.calls() if vn.bcallee(i) == ANON + 'ascii_streq']
     pairw = [w for w in q.field_writes(vn, 'tag_data::pair') if True]
-    g_eq = q.call_gate(vn, lambda i: i in cmpc, True)
-    ctx.check(bool(cmpc) and bool(pairw) and all(vn.only_through(w, g_eq) for w in pairw), R9, 'validate_nesting:pairing-only-on-equal-names', 'a closing tag is paired with an opening tag without the name comparison', vn.where)
+    g_eq = q.call_gate(vn, lambda i: vn.bcallee(i) == ANON + 'ascii_streq', True)      # also through a one-line predicate helper (seen through by cond_facts)
+    ctx.check(bool(g_eq) and bool(pairw) and all(vn.only_through(w, g_eq) for w in pairw), R9, 'validate_nesting:pairing-only-on-equal-names', 'a closing tag is paired with an opening tag without the name comparison', vn.where)
     ctx.floor(R1, 30)
     ctx.floor(R2, 4)
     ctx.floor(R6, 18)
